@@ -363,7 +363,12 @@ def run_history(case, rng, viol, counts, classes):
                 os.unlink(zpath)
                 got = canonical(run)
             else:
-                run = obs.run_single(text, ropts, as_path=(mode == "path"), profiles=True)
+                if reuse == "rel":
+                    # the bare name resolves in the directory the call is made from
+                    for f in os.listdir(wd):
+                        if f.endswith(".pka"):
+                            os.unlink(os.path.join(wd, f))
+                run = obs.run_single(text, ropts, as_path=(mode == "path"), profiles=True, workdir=wd if reuse == "rel" else None)
                 got = canonical(run)
                 if run.rec and any(g["ncov"] or g["cov"] for g in run.rec["confs"][run.rec["names"][0]]["groups"]):
                     coupled = True
